@@ -6,6 +6,9 @@
 //	       test) interleaved with what the peer and the transport do: data records, alerts of every
 //	       level x code, close_notify, transport EOF at a record boundary or at any byte offset
 //	       inside a record, temporary (timeout) and permanent transport errors, write failures.
+//	       `seg=all`: after the handshake a transport read of the unit returns everything the
+//	       transport holds (TCP-like: what the peer wrote back to back arrives together, e.g. its
+//	       last data record and its close_notify); default: one record per transport read.
 //	cancel HandshakeContext whose context is cancelled when the k-th transport operation of the
 //	       handshake happens (every k, both ends), then more calls.
 //	early  a plaintext application-data record injected in front of the j-th handshake record the
@@ -35,16 +38,19 @@ import (
 var tr *hx.Trace
 
 // wrap is the transport under the unit under test: it hands over at most the rest of the current
-// record per Read, can fail writes, counts operations and can cancel a context at the k-th one.
+// record per Read (or, with all set, everything there is), can fail writes, counts operations and
+// can cancel a context at the k-th one.
 type wrap struct {
 	*pair.StreamEnd
 	mu      sync.Mutex
+	all     bool // a Read returns everything the transport holds (set after the handshake)
 	hdr     []byte
 	rem     int
 	wmode   string // "", "t" (timeout), "p" (permanent)
 	ops     int
 	cancelK int
 	cancel  context.CancelFunc
+	fired   bool // cancel was called (inside the cancelK-th transport operation of the handshake)
 	closedC chan struct{}
 	once    sync.Once
 }
@@ -55,6 +61,9 @@ func (w *wrap) tick() {
 	w.mu.Lock()
 	w.ops++
 	fire := w.cancel != nil && w.ops == w.cancelK
+	if fire {
+		w.fired = true
+	}
 	w.mu.Unlock()
 	if fire {
 		w.cancel()
@@ -67,7 +76,7 @@ func (w *wrap) tick() {
 
 func (w *wrap) Read(p []byte) (int, error) {
 	w.tick()
-	if len(p) == 0 {
+	if len(p) == 0 || w.all {
 		return w.StreamEnd.Read(p)
 	}
 	if w.rem == 0 {
@@ -172,6 +181,9 @@ type endpoints struct {
 	uw        *wrap
 	pe        *pair.StreamEnd
 	peerObs   []string // what the peer's application read (PR ops)
+	// the transport keeps ONE pending read error; the script (and the model) queue them
+	ttPending  int  // scripted timeouts not yet reported
+	permQueued bool // a permanent error scripted while a timeout was still pending
 }
 
 // setup builds a pair; side = which end is the unit under test. If doHandshake, both handshakes run.
@@ -233,7 +245,18 @@ func runOps(ep *endpoints, ops []string, startIdx int) []string {
 			if (e == "timeout" || e == "other") && time.Since(t0) > 60*time.Millisecond {
 				e = "block"
 			} else if e == "timeout" {
-				ep.pe.FailPeerRead(nil) // the scripted temporary error has been reported; the transport recovers
+				// the scripted temporary error has been reported; the transport recovers, unless more is queued
+				if ep.ttPending > 0 {
+					ep.ttPending--
+				}
+				switch {
+				case ep.ttPending > 0:
+				case ep.permQueued:
+					ep.permQueued = false
+					ep.pe.FailPeerRead(errBoom)
+				default:
+					ep.pe.FailPeerRead(nil)
+				}
 			}
 			switch {
 			case err == nil && len(buf) == 0:
@@ -300,9 +323,16 @@ func runOps(ep *endpoints, ops []string, startIdx int) []string {
 			ep.pe.Inject(rec[:k])
 			ep.pe.CloseWriteRaw()
 		case op == "tt":
-			ep.pe.FailPeerRead(pair.ErrTimeout)
+			if !ep.permQueued {
+				ep.ttPending++
+				ep.pe.FailPeerRead(pair.ErrTimeout)
+			}
 		case op == "tp":
-			ep.pe.FailPeerRead(errBoom)
+			if ep.ttPending > 0 {
+				ep.permQueued = true
+			} else {
+				ep.pe.FailPeerRead(errBoom)
+			}
 		case strings.HasPrefix(op, "wf"):
 			ep.uw.mu.Lock()
 			ep.uw.wmode = op[2:]
@@ -315,13 +345,18 @@ func runOps(ep *endpoints, ops []string, startIdx int) []string {
 	return obs
 }
 
-func emitAPI(side, suite string, ops []string) {
+// emitAPI runs one history. seg = "" (one record per transport read of the unit) or "all".
+func emitAPI(side, suite, seg string, ops []string) {
 	desc := fmt.Sprintf("api side=%s suite=%s ops=%s", side, suite, strings.Join(ops, ","))
+	if seg == "all" {
+		desc = fmt.Sprintf("api side=%s suite=%s seg=all ops=%s", side, suite, strings.Join(ops, ","))
+	}
 	ep, bad := setup(side, suite, true)
 	if bad != "" {
 		tr.Line(desc, bad)
 		return
 	}
+	ep.uw.all = seg == "all"
 	var obs []string
 	pan := hx.Guard(func() { obs = runOps(ep, ops, 0) })
 	ep.uut.Close()
@@ -349,14 +384,23 @@ func phaseAPI(o hx.Opts, r *hx.Rand) {
 	}
 	for _, side := range sides {
 		for _, su := range suites {
-			e := func(ops ...string) { emitAPI(side, su, ops) }
+			e := func(ops ...string) { emitAPI(side, su, "", ops) }
+			ea := func(ops ...string) { emitAPI(side, su, "all", ops) }
+			reads := func(k, b int) []string {
+				var out []string
+				for i := 0; i < k; i++ {
+					out = append(out, "R"+strconv.Itoa(b))
+				}
+				return out
+			}
+			cat := func(a []string, b ...string) []string { return append(append([]string{}, a...), b...) }
 			// witnesses first
-			e("pd5", "R2", "C", "R10", "R10")            // Read after Close with plaintext still pending
-			e("pd5", "pc", "R10", "R10", "R10")          // data, then close_notify: EOF after all data, sticky
-			e("pd5", "te", "R10", "R10", "R10")          // EOF at a record boundary
-			e("C", "C", "R5", "W5", "H", "CW")           // close twice; everything after
+			e("pd5", "R2", "C", "R10", "R10")   // Read after Close with plaintext still pending
+			e("pd5", "pc", "R10", "R10", "R10") // data, then close_notify: EOF after all data, sticky
+			e("pd5", "te", "R10", "R10", "R10") // EOF at a record boundary
+			e("C", "C", "R5", "W5", "H", "CW")  // close twice; everything after
 			e("CW", "W5", "W5", "pd3", "R5", "CW", "C", "C")
-			e("pa2.40", "R5", "R5", "W5", "H", "C")      // received fatal alert: reads stay failed, write still works
+			e("pa2.40", "R5", "R5", "W5", "H", "C") // received fatal alert: reads stay failed, write still works
 			e("W3", "pd4", "R10", "W3")
 			// the transport ends at every byte offset of the last two records
 			for _, n := range []int{7, 1} {
@@ -393,6 +437,7 @@ func phaseAPI(o hx.Opts, r *hx.Rand) {
 			// transport errors
 			e("pd2", "tt", "R5", "R5", "pd3", "R5", "R5")
 			e("tt", "R5", "pd3", "R5", "W1")
+			e("tt", "R5", "tt", "R5", "pd3", "tt", "R5", "R5", "R5")
 			e("pd2", "tp", "R5", "R5", "R5", "W1", "C")
 			e("wft", "W3", "W3", "wfn", "W3", "R1", "C")
 			e("wfp", "W3", "wfn", "W3", "CW", "C", "C")
@@ -424,6 +469,58 @@ func phaseAPI(o hx.Opts, r *hx.Rand) {
 			e("pd2", "pg22", "R5", "R5", "R5")
 			e("W0", "R0", "C", "R0", "W0")
 			e("ph5", "pd2", "R5", "R5", "W1")
+			// the transport fails exactly at the close_notify record (timeout having taken nothing /
+			// permanently / timeout after half of the record) and works again afterwards: the write side
+			// is shut down all the same, the result stays reported, nothing more reaches the peer
+			for _, f := range []string{"wft", "wfp", "wfh"} {
+				e(f, "CW", "wfn", "W1", "W1", "PR8")
+				e(f, "CW", "wfn", "CW", "W1", "C", "C")
+				e(f, "CW", "wfn", "C", "W1", "CW")
+				e("W2", "PR8", f, "CW", "wfn", "W3", "CW", "W3", "C", "PR8")
+				e(f, "C", "wfn", "W1", "CW", "C")
+				e("pd3", f, "CW", "wfn", "R5", "W1", "pd2", "R5", "CW")
+			}
+			// ---- the transport hands over everything it holds in one read (seg=all): what the peer wrote
+			// back to back is buffered together, the close-notify look-ahead of Read is live.
+			// The peer's last data record and its close_notify / a clean end / a fatal alert, read with
+			// buffers smaller than, equal to and larger than the record
+			for _, n := range []int{1, 2, 5, 9} {
+				seen := map[int]bool{}
+				for _, b := range []int{1, 2, n - 1, n, n + 1, 64} {
+					if b < 1 || seen[b] {
+						continue
+					}
+					seen[b] = true
+					k := (n+b-1)/b + 2
+					ea(cat([]string{"pd" + strconv.Itoa(n), "pc"}, reads(k, b)...)...)
+					if b <= 2 || b >= n {
+						ea(cat([]string{"pd" + strconv.Itoa(n), "te"}, reads(k, b)...)...)
+						ea(cat([]string{"pd" + strconv.Itoa(n), "pa2.40"}, reads(k, b)...)...)
+					}
+				}
+			}
+			ea("pd3", "pd4", "pc", "R2", "R2", "R2", "R2", "R2", "R2") // two records and the close
+			ea("pd3", "pd4", "pc", "R3", "R4", "R4")                   // reads that end exactly on record boundaries
+			ea("pd5", "R2", "pc", "R2", "R2", "R2")                    // the close arrives after the last transport read
+			ea("pd5", "pc", "R2", "C", "R2")                           // Close with the tail still buffered
+			ea("pd5", "pc", "R2", "CW", "R9", "W1", "R9")
+			ea("pd3", "pa1.90", "pd4", "pc", "R3", "R2", "R2", "R2") // the look-ahead meets a warning, then more data
+			ea("pd3", "pa1.90", "R3", "R3", "pd2", "R3")             // … and then nothing: it waits with the bytes in hand
+			ea("pd3", "pa1.90", "tt", "R3", "R3", "pd2", "R3")       // … a timeout behind the warning
+			ea("pd3", "pa1.90", "tp", "R3", "R3", "R3")              // … a failed transport behind the warning
+			ea("pd3", "pa1.90", "te", "R3", "R3", "R3")              // … a clean end behind the warning
+			ea("pd3", "pa1.0", "R2", "R2", "R2")                     // close_notify whatever its level byte
+			ea("pd3", "pa3.0", "R3", "R3")
+			ea("pd3", "pa3.40", "R3", "R3")                  // an alert of an undefined level
+			ea("pd3", "pg21", "R2", "R2", "R2", "pd2", "R2") // garbage typed as an alert right behind the data
+			ea("pd3", "pg23", "R3", "R3", "W1")
+			ea("pd3", "ph5", "R3", "R3")
+			ea("pd3", "tx5.7", "R2", "R2", "R2") // the stream ends inside the next record
+			ea("pd3", "tx5.3", "R3", "R3")
+			ea("pd3", "tx5.0", "R3", "R3")
+			ea("pd0", "pd3", "pd0", "pc", "R1", "R1", "R1", "R1") // empty records around the data
+			ea("pc", "pd3", "R3", "R3")                           // data after the close is never delivered
+			ea("pd3", "pc", "W2", "R3", "W2", "R3", "H")
 		}
 	}
 	// random histories
@@ -435,13 +532,29 @@ func phaseAPI(o hx.Opts, r *hx.Rand) {
 		side := hx.Pick(r, sides)
 		su := hx.Pick(r, suites)
 		ln := 2 + r.Intn(12)
+		seg := hx.Pick(r, []string{"", "", "", "all", "all"})
 		var ops []string
-		ended := false   // nothing more may arrive (EOF / permanent error queued)
+		ended := false    // nothing more may arrive (EOF / permanent error queued)
 		needRead := false // a scripted timeout is pending: the next op must be a Read
+		peerRecs := 0     // records queued towards the unit
+		ttUsed := false   // the transport holds ONE pending read error: at most one scripted timeout per history
 		for j := 0; j < ln; j++ {
 			if needRead {
 				ops = append(ops, "R"+strconv.Itoa(1+r.Intn(8)))
 				needRead = false
+				continue
+			}
+			if n := len(ops); n > 0 && ops[n-1][0] == 'p' || n > 0 && strings.HasPrefix(ops[n-1], "tx") {
+				peerRecs++
+			}
+			if seg == "all" && peerRecs >= 6 && !ended {
+				// keep what is pending in the transport below bytes.MinRead (512 bytes), so that
+				// "one read returns everything" holds exactly (6 records of at most 69 wire bytes)
+				ended = true
+			}
+			if r.Intn(100) < 5 {
+				// the transport refuses exactly one call's writes and works again afterwards
+				ops = append(ops, "wf"+hx.Pick(r, []string{"t", "p", "h"}), hx.Pick(r, []string{"CW", "CW", "C", "W3"}), "wfn")
 				continue
 			}
 			x := r.Intn(100)
@@ -473,6 +586,11 @@ func phaseAPI(o hx.Opts, r *hx.Rand) {
 				ops = append(ops, fmt.Sprintf("tx%d.%d", 1+r.Intn(6), r.Intn(40)))
 				ended = true
 			case x < 92:
+				if ttUsed {
+					ops = append(ops, "R"+strconv.Itoa(1+r.Intn(8)))
+					break
+				}
+				ttUsed = true
 				ops = append(ops, "tt")
 				needRead = true
 			case x < 94:
@@ -492,7 +610,7 @@ func phaseAPI(o hx.Opts, r *hx.Rand) {
 		if needRead {
 			ops = append(ops, "R3")
 		}
-		emitAPI(side, su, ops)
+		emitAPI(side, su, seg, ops)
 	}
 }
 
@@ -515,10 +633,12 @@ func emitCancel(side string, k int, after []string) {
 	}()
 	wg.Wait()
 	ep.uw.mu.Lock()
-	total := ep.uw.ops
+	// the context was cancelled inside a transport operation of the handshake, i.e. strictly before
+	// the handshake completed (the operation only proceeds once the interrupter has closed the
+	// transport, or after 3 s if nothing did): the handshake must have been aborted
+	fired := ep.uw.fired
 	ep.uw.cancel = nil
 	ep.uw.mu.Unlock()
-	fired := k <= total && e1 != nil
 	obs := []string{errEnum(e1)}
 	pan := hx.Guard(func() { obs = append(obs, runOps(ep, after, 1)...) })
 	ep.uut.Close()
@@ -647,7 +767,8 @@ func main() {
 			switch strings.Fields(c)[0] {
 			case "api":
 				su, _ := hx.KV(c, "suite")
-				emitAPI(side, su, ops)
+				seg, _ := hx.KV(c, "seg")
+				emitAPI(side, su, seg, ops)
 			case "cancel":
 				emitCancel(side, hx.KVInt(c, "k"), ops)
 			case "early":
